@@ -51,4 +51,8 @@ def run(pid, tier, replay=None):
         e = json.loads(fh.readline()); e["samples"] = e.get("samples", [])[:3]
         ck.sample(e)
     ck.cov["rule"] = "one case = one feasible integer request (limits, distance, boundary velocities, direction) enumerated by TLC; non-trivial = requests for which a positive duration is planned (all four trapezoid branches and both bell variants must occur)"
+    # the C++ member functions of the same structures must behave like the C functions (Facade.tla)
+    from checks import facade
+    facade.part(ck, sc, ['trajtrap', 'trajbell'])
+    ck.assumptions.append('C++ member functions of a_trajtrap, a_trajbell: each compared with the C function it stands for on identically prepared objects with pairwise distinct arguments (object bytes, result, written arrays)')
     return ck.finish(exhaustive=False)
